@@ -56,7 +56,7 @@ def g_signal(r):
 def g_set_pred(r, t0):
     """Occupancy sets with strictly increasing, non-overlapping time steps / intervals starting at t0 (+ gap)."""
     occs = []
-    t = t0 + r.choice([0, 0, 0, 1, 2])
+    t = t0 + r.choice([0, 0, 0, 1, 2, 3])
     for _ in range(r.choice([1, 2, 3, 5])):
         if r.random() < 0.2:
             ln = r.choice([0, 1, 2])
@@ -65,7 +65,7 @@ def g_set_pred(r, t0):
         else:
             occs.append({"t": t, "shape": g_shape(r)})
             t += 1
-        if r.random() < 0.15:
+        if r.random() < 0.3:
             t += r.choice([1, 2])  # hole in the prediction
     init0 = occs[0]["t"][0] if isinstance(occs[0]["t"], list) else occs[0]["t"]
     if r.random() < 0.25:
@@ -74,13 +74,27 @@ def g_set_pred(r, t0):
     return {"kind": "set", "init": occs[0]["t"][0] if isinstance(occs[0]["t"], list) else occs[0]["t"], "occs": occs}
 
 
+def g_traj_gap(r):
+    """Steps between the initial state and the first predicted state of a trajectory prediction: Trajectory.initial_time_step =
+    initial_state.time_step + 1 + gap. 0 = the usual contiguous obstacle; 1, 2 = a short gap; 4, 7 = a gap that can be longer
+    than the trajectory itself (1..6 states). The obstacle reports no occupancy and no state inside the gap."""
+    return r.choice([1, 2, 4, 7]) if r.random() < 0.4 else 0
+
+
+def with_gap(r, pred):
+    g = g_traj_gap(r)
+    if g:
+        pred["gap"] = g
+    return pred
+
+
 def g_obstacle(r, oid, role=None, focus=False):
     """focus: a dynamic car with rectangle shape and trajectory prediction (the only kind that can get an icon)."""
     if focus:
         o = g_obstacle(r, oid, "dynamic")
         n = r.choice([2, 3, 6])
         o.update(type=r.choice(["CAR", "TRUCK", "BUS", "BICYCLE", "TAXI", "PARKED_VEHICLE"]), shape=["rect", 4.5, 2.0, 0.0, 0.0, 0.0],
-                 pred={"kind": "traj", "states": [{"pos": g_pos(r, 0.4), "orient": g_orient(r, 0.4), "vel": g_vel(r, 0.3)} for _ in range(n)]})
+                 pred=with_gap(r, {"kind": "traj", "states": [{"pos": g_pos(r, 0.4), "orient": g_orient(r, 0.4), "vel": g_vel(r, 0.3)} for _ in range(n)]}))
         if r.random() < 0.4:
             o["init"].update(pos=g_pos(r, 0.5), orient=g_orient(r, 0.5))
         o["sigs"] = [g_signal(r) for _ in range(n)]
@@ -100,7 +114,7 @@ def g_obstacle(r, oid, role=None, focus=False):
         k = r.choice(["none", "traj", "traj", "traj", "set", "set"])
         if k == "traj":
             n = r.choice([1, 2, 3, 6])
-            o["pred"] = {"kind": "traj", "states": [{"pos": g_pos(r, 0.1), "orient": g_orient(r), "vel": g_vel(r)} for _ in range(n)]}
+            o["pred"] = with_gap(r, {"kind": "traj", "states": [{"pos": g_pos(r, 0.1), "orient": g_orient(r), "vel": g_vel(r)} for _ in range(n)]})
             if r.random() < 0.5:
                 o["sigs"] = [g_signal(r) for _ in range(r.choice([0, 1, n, n + 1]))]
         elif k == "set":
@@ -191,19 +205,62 @@ def g_pps(r):
     return out
 
 
+def occupied_steps(o):
+    """(initial step | None, sorted steps covered by the prediction) of an obstacle spec."""
+    init = o["init"]["t"] if "init" in o else None
+    p = o.get("pred")
+    steps = set()
+    if p and p.get("kind") == "traj":
+        first = init + 1 + p.get("gap", 0)
+        steps.update(range(first, first + len(p["states"])))
+    elif p:
+        for oc in p["occs"]:
+            steps.update(range(oc["t"][0], oc["t"][1] + 1) if isinstance(oc["t"], list) else [oc["t"]])
+    return init, sorted(steps)
+
+
+def quiet_points(spec):
+    """Time steps strictly inside the horizon of some obstacle at which that obstacle has no occupancy: the gap between the
+    initial state and a prediction that starts later than the next step, holes of a set-based prediction."""
+    pts = set()
+    for o in spec.get("obstacles", []):
+        init, steps = occupied_steps(o)
+        if not steps:
+            continue
+        lo = init if init is not None else steps[0]
+        pts.update(t for t in range(lo + 1, steps[-1]) if t not in steps)
+    return sorted(pts)
+
+
+def boundary_classes(spec):
+    """For every obstacle whose horizon has a gap or a hole: the classes of begin steps around its boundaries
+    (before / at the initial step, inside the gap, first / inner / last prediction step, holes, after the end), each as a list."""
+    out = []
+    for o in spec.get("obstacles", []):
+        init, steps = occupied_steps(o)
+        if not steps:
+            continue
+        lo = init if init is not None else steps[0]
+        quiet = [t for t in range(lo + 1, steps[-1]) if t not in steps]
+        if not quiet:
+            continue
+        gap = [t for t in quiet if t < steps[0]]
+        holes = [t for t in quiet if t > steps[0]]
+        # the steps without occupancy inside the horizon (gap, holes) count twice
+        out += [c for c in ([lo - 1], [lo] if init is not None else [], gap, gap, steps[:1], steps[1:-1], steps[-1:],
+                            holes, holes, [steps[-1] + 1]) if c]
+    return out
+
+
 def horizon_points(spec):
-    """Interesting time steps: around every initial / final time step of the obstacles."""
+    """Interesting time steps: around every boundary of every obstacle's horizon — the initial time step, the first and the
+    final step of the prediction (before, at, after each) — and every step of a gap / hole inside a horizon."""
     pts = {0}
     for o in spec.get("obstacles", []):
-        ts = []
-        if "init" in o:
-            ts.append(o["init"]["t"])
-        p = o.get("pred")
-        if p and p.get("kind") == "traj":
-            ts.append(o["init"]["t"] + p.get("gap", 0) + len(p["states"]))
-        elif p:
-            for oc in p["occs"]:
-                ts.extend(oc["t"] if isinstance(oc["t"], list) else [oc["t"]])
+        init, steps = occupied_steps(o)
+        traj = (o.get("pred") or {}).get("kind") == "traj"
+        ts = ([init] if init is not None else []) + (steps[:1] + steps[-1:] if traj else steps)
         for t in ts:
             pts.update([t - 1, t, t + 1])
+    pts.update(quiet_points(spec))
     return sorted(pts)
